@@ -67,8 +67,18 @@ pub fn norm_msg(m: &str) -> String {
             out.push(c);
         }
     }
+    // data-dependent tails of the standard slicing messages ("... it is inside 'x' (bytes ..) of `<the string>`")
+    for cut in ["; it is inside", " of `", " of string `"] {
+        if let Some(i) = out.find(cut) {
+            out.truncate(i);
+        }
+    }
     if out.len() > 120 {
-        out.truncate(120);
+        let mut n = 120;
+        while !out.is_char_boundary(n) {
+            n -= 1;
+        }
+        out.truncate(n);
     }
     out
 }
